@@ -98,6 +98,8 @@ type Engine struct {
 	verbose  bool
 	callDepth int
 	accOn     bool
+	accLib    bool
+	lastPanic string
 	wantWitness bool
 	panicAcc  T
 	panicMsgs []string
@@ -255,7 +257,7 @@ func (e *Engine) concretizeIndex(idx T, signed bool, n int, what string) int {
 	if e.inPure() {
 		panic(engineError{"index concretisation attempted in guarded (pure) code: " + what + " at " + e.site})
 	}
-	inb := binop("<", idx, bv(uint64(n), idx.w), false) // negative signed values are huge unsigned
+	inb := inBounds(idx, n) // negative signed values are huge unsigned
 	var v int64
 	if k, ok := e.replayed(); ok {
 		v = k
@@ -465,7 +467,14 @@ func (e *Engine) panicMsg(v Value) string {
 }
 
 func (e *Engine) valEq(a, b Value) T {
+	if y, ok := b.(IteV); ok {
+		if _, ok2 := a.(IteV); !ok2 {
+			return tite(y.c, e.valEq(a, y.a), e.valEq(a, y.b))
+		}
+	}
 	switch x := a.(type) {
+	case IteV:
+		return tite(x.c, e.valEq(x.a, b), e.valEq(x.b, b))
 	case T:
 		return teq(x, b.(T))
 	case Ptr:
@@ -655,4 +664,12 @@ func (e *Engine) doLoad(p Value, t types.Type, guard T) Value {
 // panics on a merged path — both fail closed.
 func (e *Engine) purePanic(guard T, msg string) {
 	e.purePanicIf(guard, msg)
+}
+
+// inBounds: unsigned idx < n, taking care of n not fitting the index width.
+func inBounds(idx T, n int) T {
+	if idx.w < 64 && uint64(n) > wmask(idx.w) {
+		return tbool(true)
+	}
+	return binop("<", idx, bv(uint64(n), idx.w), false)
 }
